@@ -399,7 +399,23 @@ def c06_7(ctx, ss):
     for s in stores:
         atoms, problems = seq_parts(s.value)
         conds = [c for c in guards.path_conditions(ff.node, s) if c[0] == "if"]
-        first = any(("is None" in txt(e)) == pol for _, e, pol in conds) if conds else False
+        def none_pol(e, pol):
+            """polarity under which `e` says 'nothing registered yet' (None when e is not such a test)"""
+            while isinstance(e, ast.UnaryOp) and isinstance(e.op, ast.Not):
+                e, pol = e.operand, not pol
+            if isinstance(e, ast.Compare) and len(e.ops) == 1 and txt(e.left) == "self._additional_decay_models" and txt(e.comparators[0]) == "None":
+                if isinstance(e.ops[0], (ast.Is, ast.Eq)):
+                    return pol
+                if isinstance(e.ops[0], (ast.IsNot, ast.NotEq)):
+                    return not pol
+            if txt(e) == "self._additional_decay_models":
+                return not pol
+            return None
+        pols = [none_pol(e, pol) for _, e, pol in conds]
+        if any(x is None for x in pols):
+            ctx.undecided("C06.7", ckey(ff, None, "guard"), where(ff, s), f"registration is guarded by a test not understood: {[txt(e) for _, e, _ in conds]}")
+            continue
+        first = bool(pols) and all(pols)
         k = ckey(ff, None, "first" if first else "more")
         if problems:
             ctx.violation("C06.7", k, where(ff, s), f"registration stores `{txt(s.value)[:80]}` ({problems[0]}): some names are dropped")
